@@ -1,4 +1,4 @@
-SPECIFICATION LiveSpec
+SPECIFICATION MCSpec
 CONSTANTS
   Nodes = {"a"}
   Kinds = {"E"}
@@ -8,13 +8,13 @@ CONSTANTS
   MaxRecFail = 0
   MaxBlock = 1
   MaxTake = 0
-  MaxCrash = 1
-  MaxStep = 1
-  MaxZombie = 0
+  MaxCrash = 0
+  MaxStep = 2
+  MaxZombie = 1
   MaxSnap = 0
   Keeps = {0}
   Eager = FALSE
-INVARIANTS TypeOK
-PROPERTIES C18_Eventually
+INVARIANTS TypeOK C18_ControllerDispatches C18_IdContent C18_NoSkip C18_FirstOrder C18_LPSound I_DispAboveLP NoPanic
+PROPERTIES StepsOK
 VIEW MCView
 CHECK_DEADLOCK FALSE
